@@ -79,6 +79,12 @@ func breakerScenario(r *rand.Rand, limit int64, interval time.Duration, pattern 
 					do()
 					time.Sleep(time.Duration(r.Int63n(int64(3 * tick))))
 				}
+			case "stampede":
+				// every worker calls at once and nobody waits: admission (look at the window, then
+				// count the call) has to be one step, or more than `limit` get in
+				for i := 0; i < 4; i++ {
+					do()
+				}
 			case "bursts":
 				for time.Since(start) < 4*interval {
 					for i := int64(0); i < limit+2; i++ {
@@ -191,6 +197,11 @@ func main() {
 			}
 		}
 		wg.Wait() // breaker scenarios first: they are sensitive to scheduling delays
+		for i := 0; i < 150; i++ {
+			seed2 := r.Int63()
+			limit := []int64{1, 3, 5}[i%3]
+			events = append(events, breakerScenario(rand.New(rand.NewSource(seed2)), limit, 10*time.Minute, "stampede", 16+16*(i%2)))
+		}
 		for _, pl := range []int{0, 1, 3} {
 			for _, admit := range []bool{false, true} {
 				pl, admit := pl, admit
